@@ -60,3 +60,55 @@ Theorem C13_pow_assumption_is_satisfiable :
   is_finite (pow_ideal r cThird) = true /\ Rabs (B2R (pow_ideal r cThird) - cbrt (B2R r)) <= / 1000000000000 * cbrt (B2R r).
 Proof. exact pow_assumption_satisfiable. Qed.
 Print Assumptions C13_pow_assumption_is_satisfiable.
+
+(* ColorFromLAB in floats against the inverse of the definition (g), for EVERY finite float32 Lab value and
+   white in (0, 2] whose three f-values (L+16)/116, a/500 + fy, fy - b/200 lie in [-1.9, 1.9]: finite and
+   within a relative 6e-8 (the float32 rounding of the result) plus 1e-8.  The assumption on math.Pow(t, 3):
+   the cube to an absolute 1e-12 for |t| <= 2.  The branch on the computed cube against the rounded constant,
+   the separate branch on L > 8, and every float64/float32 operation are analysed with Flocq. *)
+Theorem C13_from_lab_float_close : forall pow : f64 -> f64 -> f64,
+  (forall t : f64, is_finite t = true -> Rabs (B2R t) <= 2 ->
+     is_finite (pow t k3) = true /\ Rabs (B2R (pow t k3) - B2R t * B2R t * B2R t) <= / 1000000000000) ->
+  forall l a b wx wy wz : f32,
+  is_finite l = true -> is_finite a = true -> is_finite b = true ->
+  is_finite wx = true -> is_finite wy = true -> is_finite wz = true ->
+  0 < B2R wx <= 2 -> 0 < B2R wy <= 2 -> 0 < B2R wz <= 2 ->
+  let fy := (B2R l + 16) / 116 in let fx := B2R a / 500 + fy in let fz := fy - B2R b / 200 in
+  Rabs fx <= 19 / 10 -> Rabs fy <= 19 / 10 -> Rabs fz <= 19 / 10 ->
+  exists X Y Z : f32, from_lab pow l a b wx wy wz = (X :: Y :: Z :: nil)%list /\
+    is_finite X = true /\ is_finite Y = true /\ is_finite Z = true /\
+    Rabs (B2R X - g fx * B2R wx) <= 6 / 100000000 * Rabs (g fx * B2R wx) + / 100000000 /\
+    Rabs (B2R Y - g fy * B2R wy) <= 6 / 100000000 * Rabs (g fy * B2R wy) + / 100000000 /\
+    Rabs (B2R Z - g fz * B2R wz) <= 6 / 100000000 * Rabs (g fz * B2R wz) + / 100000000.
+Proof. exact from_lab_close. Qed.
+Print Assumptions C13_from_lab_float_close.
+
+(* XYZ -> Lab -> XYZ as the code evaluates it (ToLAB to float32 Lab, then ColorFromLAB), at unit scale:
+   for EVERY finite float32 colour with 0 <= component <= white and white in (0, 2], the result is finite
+   and within 1e-6 of the input (the property asks 1e-5), under the two assumptions on math.Pow. *)
+Theorem C13_float_round_trip_unit_scale : forall pow : f64 -> f64 -> f64,
+  (forall r : f64, is_finite r = true -> B2R cE < B2R r -> B2R r <= 5 ->
+     is_finite (pow r cThird) = true /\ Rabs (B2R (pow r cThird) - cbrt (B2R r)) <= / 1000000000000 * cbrt (B2R r)) ->
+  (forall t : f64, is_finite t = true -> Rabs (B2R t) <= 2 ->
+     is_finite (pow t k3) = true /\ Rabs (B2R (pow t k3) - B2R t * B2R t * B2R t) <= / 1000000000000) ->
+  forall x y z wx wy wz : f32,
+  is_finite x = true -> is_finite y = true -> is_finite z = true ->
+  is_finite wx = true -> is_finite wy = true -> is_finite wz = true ->
+  0 < B2R wx <= 2 -> 0 < B2R wy <= 2 -> 0 < B2R wz <= 2 ->
+  0 <= B2R x / B2R wx <= 1 -> 0 <= B2R y / B2R wy <= 1 -> 0 <= B2R z / B2R wz <= 1 ->
+  exists L A B X Y Z : f32,
+    to_lab pow x y z wx wy wz = (L :: A :: B :: nil)%list /\
+    from_lab pow L A B wx wy wz = (X :: Y :: Z :: nil)%list /\
+    is_finite X = true /\ is_finite Y = true /\ is_finite Z = true /\
+    Rabs (B2R X - B2R x) <= / 1000000 /\ Rabs (B2R Y - B2R y) <= / 1000000 /\ Rabs (B2R Z - B2R z) <= / 1000000.
+Proof. exact lab_float_round_trip. Qed.
+Print Assumptions C13_float_round_trip_unit_scale.
+
+(* the two assumptions are met together by one function (the correctly rounded result): not vacuous *)
+Theorem C13_pow_assumptions_are_satisfiable :
+  (forall r : f64, is_finite r = true -> B2R cE < B2R r -> B2R r <= 5 ->
+     is_finite (pow_model r cThird) = true /\ Rabs (B2R (pow_model r cThird) - cbrt (B2R r)) <= / 1000000000000 * cbrt (B2R r)) /\
+  (forall t : f64, is_finite t = true -> Rabs (B2R t) <= 2 ->
+     is_finite (pow_model t k3) = true /\ Rabs (B2R (pow_model t k3) - B2R t * B2R t * B2R t) <= / 1000000000000).
+Proof. exact (conj pow_model_cbrt pow_model_cube). Qed.
+Print Assumptions C13_pow_assumptions_are_satisfiable.
